@@ -151,10 +151,10 @@ PROPS = {
     },
     "C14": {
         "engines": ["conc", "seq"],
-        "footprint": {"conc.run": ["trace", "rets"], "match": ["txs"]},
+        "footprint": {"conc.run": ["trace", "rets"], "match": ["txs"], "v5": "*"},
         "nontrivial": r"uuid\.fetch_add[^ ]*uuid\.fetch_add",
-        "rule": "E-conc: a level pre-loaded with 1-4 Standard/PostOnly/Iceberg/Reserve orders, 2-4 real threads each issuing 1-3 add/match/cancel/quantity-amend/read/next operations, run under a deterministic scheduler that admits one shared-memory operation (atomic, map or queue op) at a time following a random schedule (single steps or bursts); 150 programs x 12 schedules (thorough: 3000 x 40 per shard); the logged event trace, every return value and the aggregates read by the controller after every step are compared with the Lean small-step model run under the same schedule; every id-generator step must be exactly one fetch_add(1) on the counter, and the values handed out across all threads judged by C14.ok to be pairwise distinct and to form the range starting at the counter's previous value; transaction ids are mapped back to counters through v5(namespace, k) computed independently by the harness (reproducibility)",
-        "assumptions": ["as C03; Uuid::new_v5 (SHA-1) injective on distinct counter strings"],
+        "rule": "E-conc: a level pre-loaded with 1-4 Standard/PostOnly/Iceberg/Reserve orders, 2-4 real threads each issuing 1-3 add/match/cancel/quantity-amend/read/next operations, run under a deterministic scheduler that admits one shared-memory operation (atomic, map or queue op) at a time following a random schedule (single steps or bursts); 150 programs x 12 schedules (thorough: 3000 x 40 per shard); the logged event trace, every return value and the aggregates read by the controller after every step are compared with the Lean small-step model run under the same schedule; every id-generator step must be exactly one fetch_add(1) on the counter, and the values handed out across all threads judged by C14.ok to be pairwise distinct and to form the range starting at the counter's previous value; transaction ids are mapped back to counters through v5(namespace, k) computed independently by the harness (reproducibility); E-seq: the ids a real generator (built or restored at boundary counters, over the standard / nil / all-ones / random namespaces) returns are compared bit for bit with the Lean model's SHA-1 + version-5 construction (`v5` lines)",
+        "assumptions": ["as C03; collision resistance of SHA-1 truncated to 122 bits on the messages namespace ++ decimal(counter) (C14_distinct_or_collision makes the reduction explicit)"],
     },
     "C16": {
         "engines": ["codec"],
